@@ -443,9 +443,16 @@ def header_with_symbols(prop: str = 'C05') -> str:
     d = os.path.join(coqrun.WORK, 'cases', prop)
     os.makedirs(d, exist_ok=True)
     mod = f'{prop}hdr{os.getpid()}'
+    for old in os.listdir(d):      # leftovers of earlier runs
+        if old.startswith(f'{prop}hdr') or old.startswith(f'.{prop}hdr'):
+            try:
+                os.remove(os.path.join(d, old))
+            except OSError:
+                pass
     with open(os.path.join(d, mod + '.v'), 'w') as f:
         f.write(text)
-    p = subprocess.run(['timeout', '600', 'coqc', '-Q', os.path.join(coqrun.COQ, 'theories'),
+    p = subprocess.run(['timeout', '600', 'coqc', '-noglob', '-Q',
+                        os.path.join(coqrun.COQ, 'theories'),
                         coqrun.LOGICAL, mod + '.v'], cwd=d, stdout=subprocess.PIPE,
                        stderr=subprocess.STDOUT)
     if p.returncode != 0:
